@@ -66,6 +66,7 @@ type Exec struct {
 	assertsSeen map[string]int
 	params map[string]int
 	nCtx int
+	randLog [][]*Term
 	retryAttempts int
 	pcSetNames map[string]bool
 	pkgInitStarted map[*ssa.Package]bool
@@ -202,6 +203,17 @@ func (ex *Exec) addPC(l *Term) {
 	ex.pcSet[l] = true
 }
 
+// pin records t == v (already in the path condition) so that terms built later use
+// the constant. Only geometry values (lengths, offsets, counts) are pinned: pinning the
+// bytes compared by ordinary branches would make terms built after the branch differ
+// syntactically from those built before it, and push equalities that are otherwise
+// closed by hash-consing onto the solver.
+func (ex *Exec) pin(t *Term, v uint64) {
+	if t.sort.K == SBV && t.sort.W <= 64 {
+		ex.tt.Pin(t, ex.tt.BV(t.sort.W, v))
+	}
+}
+
 func (ex *Exec) replaying() bool { return ex.pos < len(ex.prefix) }
 
 func (ex *Exec) nextDecision() int64 {
@@ -223,6 +235,7 @@ func (ex *Exec) branch(c *Term) bool {
 	if c.sort.K != SBool {
 		panic("branch on non-bool")
 	}
+	c = ex.tt.rep(c)
 	if c.IsConst() {
 		return c.cval == 1
 	}
@@ -320,6 +333,7 @@ func (ex *Exec) choice(n int) int {
 
 // concretize returns a concrete value for t (case split over all feasible values).
 func (ex *Exec) concretize(t *Term, what string) uint64 {
+	t = ex.tt.rep(t)
 	if t.IsConst() {
 		return t.cval
 	}
@@ -332,6 +346,7 @@ func (ex *Exec) concretize(t *Term, what string) uint64 {
 	if ex.replaying() {
 		v := uint64(ex.nextDecision())
 		ex.addPC(ex.tt.Eq(t, ex.tt.BV(t.sort.W, v)))
+		ex.pin(t, v)
 		return v
 	}
 	cap := ex.eng.concCap
@@ -372,6 +387,7 @@ func (ex *Exec) concretize(t *Term, what string) uint64 {
 	}
 	ex.decisions = append(ex.decisions, int64(vals[0]))
 	ex.addPC(ex.tt.Eq(t, ex.tt.BV(t.sort.W, vals[0])))
+	ex.pin(t, vals[0])
 	return vals[0]
 }
 
